@@ -16,6 +16,7 @@ mod model;
 mod prng;
 mod props;
 mod sess;
+mod websess;
 
 use engine::{CheckArgs, Tier, WorkerArgs};
 use std::path::{Path, PathBuf};
@@ -55,8 +56,20 @@ macro_rules! dispatch {
                 type $p = props::c11::C11;
                 $body
             }
+            "C14" => {
+                type $p = props::c14::C14;
+                $body
+            }
+            "C16" => {
+                type $p = props::c16::C16;
+                $body
+            }
             "C17" => {
                 type $p = props::c17::C17;
+                $body
+            }
+            "C18" => {
+                type $p = props::c18::C18;
                 $body
             }
             other => {
